@@ -154,8 +154,8 @@ func (e *Engine) isRepoPath(p string) bool {
 // missingContractTargets returns contracts whose function no longer exists.
 func (e *Engine) missingContractTargets() []string {
 	var missing []string
-	for k := range e.spec.Funcs {
-		if _, ok := e.fnByName[k]; !ok {
+	for k, fs := range e.spec.Funcs {
+		if _, ok := e.fnByName[k]; !ok && !fs.Trusted {
 			missing = append(missing, k)
 		}
 	}
